@@ -684,6 +684,13 @@ ENUM_OBSERVERS = [
 ]
 
 
+ENUM_QUERIES = [o for o in ENUM_OBSERVERS if o["op"] in ("list", "yplookup", "count")] + [
+    {"op": "yplookup", "mode": "all", "tags": ["m"], "as_set": False, "rm": False},
+    {"op": "yplookup", "mode": "any", "tags": ["m", "n"], "as_set": True, "rm": True},
+    {"op": "lookup", "name": "a", "rm": True}, {"op": "lookup", "name": "top", "rm": False}]
+ENUM_OBSERVERS = ENUM_OBSERVERS + ENUM_QUERIES[-4:]
+
+
 def enum_probes():
     names = ["a", "A", "a_", "ab", "axc", "top", NS_NAME, "", "new", "\u00c9\u00df", "\u00e9"]
     metas = [(None, False), ([], False), (["m"], False), (["m", "m", "n"], False), (["M", "m", "x"], True)]
@@ -705,7 +712,8 @@ def enum_probes():
 def enum_cases():
     for sname in sorted(ENUM_SETUPS):
         for probe in enum_probes():
-            yield {"ops": list(ENUM_SETUPS[sname]) + [probe] + ENUM_OBSERVERS, "enum": sname}
+            # the queries are asked once BEFORE the mutating probe as well (a back-end may remember answers: they must not survive the change)
+            yield {"ops": list(ENUM_SETUPS[sname]) + ENUM_QUERIES + [probe] + ENUM_OBSERVERS, "enum": sname}
 
 
 # ------------------------------------------------------------------------------------------------
